@@ -106,7 +106,8 @@ func verifRangeEv(s *session, kind, arg int, umin, umax []byte, c *compaction) {
 		v.release()
 		st.auto = nil
 	case 1:
-		if st.cur != nil {
+		// bounded: a loop that never ends must not eat the memory of the process that watches it
+		if st.cur != nil && len(st.cur.Passes) < 4096 {
 			st.cur.Passes = append(st.cur.Passes, VerifRangePass{M: arg})
 		}
 	case 2:
